@@ -157,6 +157,7 @@ class Registry:
         self.realisers: dict[str, Callable] = {}
         self.known_mutable_fields: set[str] = set()
         self.bounded_checks: list[dict] = []  # bounded native stand-ins for functions not under contract
+        self.static_checks: list = []  # (name, props, fn): mechanical source scans returning [{name, ok, detail}]
 
     def contract(self, qualname: str, props=(), kind="kernel"):
         def deco(fn):
@@ -190,6 +191,12 @@ class Registry:
         """A bounded native stand-in (runtime checking of the property over an enumerated universe) for functions
         that are not within the verifier's reach.  Labelled bounded in the evidence, never counted as proved."""
         self.bounded_checks.append({"name": name, "props": list(props), "replayer": replayer, "covers": list(covers), "bound": bound})
+
+    def static_check(self, name: str, props=()):
+        def deco(fn):
+            self.static_checks.append((name, list(props), fn))
+            return fn
+        return deco
 
     def lemma(self, name: str, props=()):
         def deco(fn):
